@@ -16,7 +16,7 @@
 //! deterministic function of the recorded schedule.
 #![allow(dead_code)]
 use std::collections::HashMap;
-use std::sync::atomic::{AtomicBool, AtomicU64, AtomicU8, AtomicUsize, Ordering::SeqCst};
+use std::sync::atomic::{AtomicU8, Ordering::SeqCst};
 use std::sync::Mutex as StdMutex;
 
 /// snapshot function installed by g_pool (the probe of the copied source)
@@ -315,7 +315,7 @@ pub mod sync {
 
 pub mod thread {
     use super::*;
-    pub use shuttle::thread::{current, JoinHandle, Thread, ThreadId};
+    pub use shuttle::thread::{current, JoinHandle, ThreadId};
     pub use std::thread::panicking;
 
     pub struct Builder {
